@@ -214,7 +214,19 @@ func (c *Ctx) c09Isolated(kind string, formulas []string) {
 // known-finding matcher: one id per (function, failure kind); only single calls of that function match
 func c09Known(formula, detail string) string {
 	i := strings.Index(formula, "(")
-	if i <= 0 || strings.Count(formula, "(") != strings.Count(formula, ")") {
+	// parentheses inside string literals do not count
+	var bare strings.Builder
+	inStr := false
+	for _, r := range formula {
+		if r == '"' {
+			inStr = !inStr
+			continue
+		}
+		if !inStr {
+			bare.WriteRune(r)
+		}
+	}
+	if i <= 0 || strings.Count(bare.String(), "(") != strings.Count(bare.String(), ")") {
 		return ""
 	}
 	name := strings.ToUpper(formula[:i])
@@ -231,7 +243,7 @@ func c09Known(formula, detail string) string {
 }
 
 func runC09(c *Ctx) {
-	c.R.Rule = "CalcCellValue in isolated worker processes (panic recovered per formula, crash/timeout attributed to the formula): (i) every string up to length L (3 quick / 4 thorough) over a 16-symbol alphabet and single-token mutations of well-formed seed formulas; (ii) every formula function name x arities 0..3 (0..4 thorough) x a dictionary of argument kinds; (iii) every reference graph over 3 (4 thorough) formula cells incl. self references; each evaluated twice (determinism), workbook observation before/after (purity), wall time. non-trivial = evaluation returned a value or an error"
+	c.R.Rule = "CalcCellValue in isolated worker processes (panic recovered per formula, crash/timeout attributed to the formula): (i) every string up to length L (3 quick / 4 thorough) over a 16-symbol alphabet and single-token mutations of well-formed seed formulas; (ii) every formula function name x arities 0..3 (0..4 thorough) x a dictionary of argument kinds, plus hostile text arguments (regex metacharacters, bare comparison operators, escapes) alone and as criteria over a range; (iii) every reference graph over 3 (4 thorough) formula cells incl. self references; each evaluated twice (determinism), workbook observation before/after (purity), wall time. non-trivial = evaluation returned a value or an error"
 	// (i) short strings and mutations
 	alphabet := []string{"1", "A", "(", ")", "+", "-", "*", "^", "\"", ",", "!", "%", "&", "=", "<", "$"} // no ":" here: A:A / 1:1 build million-cell matrices
 	maxLen := 3
@@ -304,9 +316,20 @@ func runC09(c *Ctx) {
 		k2 = []string{"1", "-1", "\"text\"", "\"\"", "A1:B3", "1E+307", "A7", "{1,2;3,4}"}
 		k3 = []string{"0", "A4", "1E+307", "A1:B3"}
 	}
+	// text arguments that reach pattern matching, criteria parsing and number/date parsing with hostile content
+	crits := []string{"\"a(b\"", "\"[\"", "\"*)\"", "\"\\\"", "\">=\"", "\"~\""}
+	if c.Thorough() {
+		crits = append(crits, "\"?*+\"", "\"<>\"", "\"=*(\"", "\">text\"", "\"{\"", "\"1e999\"", "\"-\"", "\"%\"", "\"1/1/99999\"")
+	}
 	var calls []string
 	for _, nm := range names {
 		fn := strings.ReplaceAll(nm, "dot", ".")
+		for _, k := range crits {
+			calls = append(calls, fn+"("+k+")", fn+"(A1:B3,"+k+")", fn+"(A1:B3,"+k+",A1:B3)")
+			if c.Thorough() {
+				calls = append(calls, fn+"("+k+",A1:B3,0)", fn+"("+k+","+k+")", fn+"(1,"+k+")")
+			}
+		}
 		calls = append(calls, fn+"()")
 		for _, k := range kinds {
 			calls = append(calls, fn+"("+k+")")
